@@ -58,7 +58,7 @@ type Config struct {
 	NoNullSliceOrMap bool
 
 	// UseInt64 indicates decoder to unmarshal an integer into an interface{} as an
-	// int64 instead of as a float64.
+	// int64 instead of as a float64. It has no effect when UseNumber is set.
 	UseInt64 bool
 
 	// UseNumber indicates decoder to unmarshal a number into an interface{} as a
